@@ -1530,6 +1530,21 @@ MA('C07', 'group unit ball projection without the maximum', PROXF,
    'proximal_convex_conj_l1_l2.ProximalConvexConjL1L2._call',
    'denom.ufuncs.maximum(lam, out=denom)', 'pass',
    'IndicatorGroupL1UnitBall[p=2')
+MA('C07', 'nuclear norm sup-norm proximal scales instead of cutting (regression)', DEFF,
+   'NuclearNorm.proximal.NuclearNormProximal._call',
+   'sprox = np.minimum(s, tau)',
+   'sprox = (1 - self.sigma / np.maximum(self.sigma, np.sum(s, axis=-1)))[..., None] * s',
+   'singular exp inf')
+MA('C07', 'nuclear norm sup-norm proximal with the level of all components', DEFF,
+   'NuclearNorm.proximal.NuclearNormProximal._call',
+   'tau = np.take_along_axis(levels, k - 1, axis=-1)',
+   'tau = levels[..., -1:]', 'singular exp inf')
+M('C07', 'separable sum hands the first step to every part', PROXF,
+  """            *[factory(sigmai)
+              for sigmai, factory in zip(sigma, factory_list)])""",
+  """            *[factory(sigma[0])
+              for sigmai, factory in zip(sigma, factory_list)])""",
+  'steps sigma, 2 sigma')
 M('C15', 'element from a callable no longer owns its data (regression)', 'odl/discr/discr_space.py',
   "                sampled = np.array(sampled, copy=True)",
   "                pass", 'C15-R4c')
